@@ -14,6 +14,7 @@ import (
 	"encoding/hex"
 	"fmt"
 	"reflect"
+	"runtime"
 	"strings"
 
 	"github.com/lugu/qiloop/meta/signature"
@@ -391,6 +392,33 @@ func stripWS(s string) string {
 
 func maxParens(s string) int { return strings.Count(s, "(") }
 
+// parseWork: number of heap objects signature.Parse allocates on n nested empty tuples (every
+// parser invocation of goparsec clones its scanner; the count does not depend on timing).
+func parseWork(n int) uint64 {
+	in := strings.Repeat("(", n) + strings.Repeat(")", n)
+	best := ^uint64(0)
+	var ms runtime.MemStats
+	for try := 0; try < 3; try++ {
+		runtime.ReadMemStats(&ms)
+		a := ms.Mallocs
+		signature.Parse(in)
+		runtime.ReadMemStats(&ms)
+		if d := ms.Mallocs - a; d < best {
+			best = d
+		}
+	}
+	return best
+}
+
+// observeGrammar tells the repaired grammar ("(" list ")" parsed once, struct definition optional:
+// work linear in the nesting depth) from the pinned one (struct alternative before the tuple
+// alternative on the same prefix: work doubles with every level) by the growth of the work from
+// 6 to 12 nested parentheses: a factor of about 2 against a factor of about 64.
+func observeGrammar() (merged bool, w6, w12 uint64) {
+	w6, w12 = parseWork(6), parseWork(12)
+	return w12 < 8*w6, w6, w12
+}
+
 // ---------- the run ----------
 
 const c09Alphabet = "ism[]{}()<>,A"
@@ -398,13 +426,22 @@ const c09Alphabet = "ism[]{}()<>,A"
 func runC09(res *hx.Result, rng *hx.Rng, tier string, outdir string) {
 	res.Rule = "inputs = grammar-generated signatures (own printer; scalars, lists, maps, tuples, structs with plain and " +
 		"template names, empty structs, tuples in maps) with/without white space between tokens, near-miss strings (one character " +
-		"deleted/inserted/replaced/swapped), random strings over `ism[]{}()<>,` + name characters + white space, nests of parentheses (<= 12); " +
+		"deleted/inserted/replaced/swapped), random strings over `ism[]{}()<>,` + name characters + white space, nests of parentheses (<= 12; <= 40 when the repaired grammar is observed); " +
 		"non-trivial = generated type of depth >= 2 or containing a struct, or a near-miss of one; distinct by sha256 of the input string"
 	nGen, nMiss, nRand, maxDepth := 700, 900, 400, 5
 	if tier == "thorough" {
 		nGen, nMiss, nRand, maxDepth = 30000, 50000, 20000, 8
 	}
-	cf := hx.NewCases(outdir, "C09", "From QV Require Import Sig SigParse C09Run.", "mismatches cfg cases", res, "cases", "pcase")
+	cf := hx.NewCases(outdir, "C09", "From QV Require Import Sig SigParse C09Run.", "mismatches cfg merged cases", res, "cases", "pcase")
+
+	// --- which grammar is at work: the model to compare with (parse_m / parse, SigParse.v) ---
+	merged, w6, w12 := observeGrammar()
+	res.Notes = append(res.Notes, fmt.Sprintf("grammar observed: merged=%v (allocations of Parse on 6 / 12 nested parentheses: %d / %d)", merged, w6, w12))
+	cf.Extra = append(cf.Extra, fmt.Sprintf("Definition merged := %s.", hx.Bool(merged)))
+	maxNest := 12
+	if merged {
+		maxNest = 40 // implementation and model are both linear in the depth
+	}
 
 	// --- defect probes (witnesses of C09_refuted_* in coq/props/C09.v) ---
 	keyProbe := observeSig("{[i]i}")
@@ -592,7 +629,7 @@ func runC09(res *hx.Result, rng *hx.Rng, tier string, outdir string) {
 			}
 		}
 		in := string(b)
-		if maxParens(in) > 12 && strings.Count(in, ")") < maxParens(in) {
+		if !merged && maxParens(in) > 12 && strings.Count(in, ")") < maxParens(in) {
 			continue
 		}
 		o := observeSig(in)
@@ -629,7 +666,7 @@ func runC09(res *hx.Result, rng *hx.Rng, tier string, outdir string) {
 		accepted(in, o, "random")
 		add(in, o, "random", false)
 	}
-	for n := 0; n <= 12; n++ {
+	for n := 0; n <= maxNest; n++ {
 		for _, in := range []string{strings.Repeat("(", n) + strings.Repeat(")", n), strings.Repeat("(", n),
 			strings.Repeat("(", n) + "i" + strings.Repeat(")", n) + "<A,a>", strings.Repeat("[", n) + "i" + strings.Repeat("]", n),
 			strings.Repeat("{i", n) + "i" + strings.Repeat("}", n)} {
